@@ -117,6 +117,12 @@ def run(facts, tier):
     pushes, guarded = [], []
     for g in fam:
         ps = [n for n in walk(g["body"]) if n.get("k") == "MethodCall" and n["m"] == "push"]
+        if g["id"] != f["id"]:
+            # a piece that collects candidates in a list of its own (`inherited_namespaces() -> Vec`) adds nothing to the result;
+            # only pushes into a list the piece was handed (`items: &mut Vec<..>`) are additions to the element's bindings
+            import guards
+            plids = {p_.get("lid") for p_ in g.get("params", []) if "Vec<" in str(p_.get("ty", ""))}
+            ps = [n for n in ps if guards._root_local(n.get("recv"))[1] in plids]
         pushes += ps
         guarded += [n for n in ps if any(i.get("k") == "If" and shadow_test(i["cond"]) and any(m is n for m in walk(i["then"])) for i in walk(g["body"]))]
     checks.append(("inherited and implicit bindings are shadowed by prefix", bool(pushes) and len(guarded) == len(pushes)))
